@@ -1,0 +1,12 @@
+//go:build verif
+
+package control
+
+// VerifDomainRoutingBatchObserver, when set, sees every batch syncOwner is about to send to domain_routing_map.
+var VerifDomainRoutingBatchObserver func(update [][4]uint32, values []bpfDomainRouting, del [][4]uint32)
+
+func verifObserveDomainRoutingBatch(update [][4]uint32, values []bpfDomainRouting, del [][4]uint32) {
+	if f := VerifDomainRoutingBatchObserver; f != nil {
+		f(update, values, del)
+	}
+}
